@@ -120,7 +120,13 @@ def build(s):
         gyro_model = inertial_sensor.EstimationModel(bias_sd=1e-4, noise=1e-5, bias_walk=1e-7,
                                                      scale_misal_sd=sm)
         accel_model = inertial_sensor.EstimationModel(bias_sd=0.05, noise=1e-3, scale_misal_sd=sm)
-    return dict(traj=traj, increments=increments, initial=initial, measurements=meas,
+    # feedforward only: the `increments` argument may be sampled more sparsely than the trajectory rows
+    # (its index a strict subset of the row times, possibly with whole stretches without any sample)
+    inc_passed = increments
+    if s.get('inc_epochs'):
+        assert set(s['inc_epochs']) <= set(ep) and len(s['inc_epochs']) >= 2
+        inc_passed = strapdown.compute_increments_from_imu(imu.iloc[s['inc_epochs']], 'rate')
+    return dict(traj=traj, increments=increments, inc_passed=inc_passed, initial=initial, measurements=meas,
                 gyro_model=gyro_model, accel_model=accel_model)
 
 
@@ -232,6 +238,19 @@ def run_impl(s):
     if inp['gyro_model'] is None:       # the documented default: argument not passed at all
         del kw['gyro_model'], kw['accel_model']
     res = None
+    # internal quantities handed to the covariance propagation: time_delta > 0 and finite gyro/accel averages
+    internal = []
+    orig_prop = filters._compute_error_propagation_matrices
+
+    def prop(pva, gyro, accel, time_delta, *a, **k):
+        if not time_delta > 0:
+            internal.append(f"time_delta={time_delta!r}")
+        for nm, v in (('gyro_average', gyro), ('accel_average', accel)):
+            if v is not None and not np.isfinite(np.asarray(v, dtype=float)).all():
+                internal.append(f"{nm} not finite (time_delta={time_delta!r})")
+        return orig_prop(pva, gyro, accel, time_delta, *a, **k)
+
+    filters._compute_error_propagation_matrices = prop
     try:
         if kind == 'fb':
             with Watchdog(codes, budget, WALL_SECONDS):
@@ -244,14 +263,17 @@ def run_impl(s):
             nominal = inp['traj'].iloc[s['epochs']]
             computed = strapdown.Integrator(inp['initial'], True).integrate(inp['increments'])
             if s.get('increments'):
-                kw['increments'] = inp['increments']
+                kw['increments'] = inp['inc_passed']
             with Watchdog(codes, budget, WALL_SECONDS):
                 res = filters.run_feedforward_filter(nominal, computed, 10, 2, 1, 5, **kw)
     except NonTermination as e:
         return dict(status='nonterminating', error=str(e))
     except Exception as e:
         return dict(status='exception', error=f"{type(e).__name__}: {e}",
-                    where=traceback.format_exc()[-800:])
+                    where=traceback.format_exc()[-800:], internal=internal[:3])
+    finally:
+        filters._compute_error_propagation_matrices = orig_prop
+    obs['internal'] = internal[:3]
     try:
         names = [c for c, _ in s['sensors']] if s['meas_mode'] == 'list' else []
         obs['innov_keys'] = sorted(res.innovations.keys())
@@ -471,6 +493,15 @@ def gen_schedule(rng, kind, nmax=24):
     if kind == 'ff':
         s['increments'] = bool(models == 2 or rng.random() < 0.5)
         cats.append('increments:' + ('yes' if s['increments'] else 'no'))
+        if s['increments'] and len(ep) >= 3 and rng.random() < 0.5:
+            k = rng.choice([2, 3])
+            sub_ = ep[rng.randrange(k)::k]
+            if len(sub_) > 3 and rng.random() < 0.5:          # a stretch of rows without any increment
+                i = rng.randrange(1, len(sub_) - 1)
+                del sub_[i:i + rng.randint(1, max(1, len(sub_) // 3))]
+            if len(sub_) >= 2:
+                s['inc_epochs'] = sub_
+                cats.append(f'increments:sparse(every {k}th row)')
     cats += ['altitude:' + ('on' if alt else 'off'), 'models:' + ('none', 'bias', 'bias+scale')[models]]
     s['cats'] = cats
     return s
@@ -503,6 +534,9 @@ def exhaustive_small(kind, seed):
                          cats=[f'small:n={n},stamps={m}'])
                 if kind == 'ff':
                     s['increments'] = bool((c // 2) % 2)
+                    if s['increments'] and (c // 4) % 2 and n >= 2:
+                        s['inc_epochs'] = ep[::2]
+                        s['models'] = 2 if (c // 8) % 2 else 0
                 yield s
 
 
@@ -510,7 +544,8 @@ def key_of(s):
     t0 = s['epochs'][0]
     return (s['filter'], tuple(t - t0 for t in s['epochs']),
             tuple((c, tuple(t - t0 for t in ts)) for c, ts in s['sensors']), s['meas_mode'], s['step'],
-            s['alt'], s['models'], s.get('increments'), bool(s.get('lever')))
+            s['alt'], s['models'], s.get('increments'), bool(s.get('lever')),
+            tuple(t - t0 for t in s.get('inc_epochs') or ()))
 
 
 # --------------------------------------------------------------------------------------
@@ -606,9 +641,9 @@ def coq_compare(kind, pairs, tag):
         return False, {}, out
     body = m.group(1).replace('%nat', '')
     res = {}
-    for mm in re.finditer(r'\((\d+),\s*\[([\d;\s]*)\]\)', body):
+    for mm in re.finditer(r'\(\s*(\d+),\s*\[([\d;\s]*)\]\s*\)', body):
         res[int(mm.group(1))] = [int(x) for x in mm.group(2).replace(';', ' ').split()]
-    if body.strip() != '[]' and not res:
+    if len(res) != body.count('[') - 1:        # one inner list per reported case: nothing may be lost in parsing
         return False, {}, out
     return True, res, out
 
@@ -634,7 +669,7 @@ def model_trace(s):
         return "coqc failed:\n" + out[-1500:]
     import re
     ev = []
-    for a, b, c, d in re.findall(r'\((-?\d+),\s*(-?\d+),\s*(-?\d+),\s*(-?\d+)\)', out.replace('%Z', '')):
+    for a, b, c, d in re.findall(r'\(\s*(-?\d+),\s*(-?\d+),\s*(-?\d+),\s*(-?\d+)\s*\)', out.replace('%Z', '')):
         a, b, c, d = int(a), int(b), int(c), int(d)
         ev.append({1: f"Innov sensor={b} epoch={c} at={d}", 2: f"Record {c}", 3: f"Integrate [{c}:{d})",
                    4: f"Propagate {c}->{d}", 5: "OutOfFuel", 6: "Crash"}[a])
@@ -648,14 +683,38 @@ def fails_on_impl(s):
     return property_failures(s, run_impl(s))
 
 
+def failure_class(fails):
+    """Coarse class of the first failure, preserved by the shrinker."""
+    if not fails:
+        return None
+    f = fails[0]
+    if f.startswith('filter does not terminate'):
+        return 'nontermination'
+    if f.startswith('filter raised') or f.startswith('non-finite'):
+        return 'numeric-or-exception'
+    return 'schedule'
+
+
+def valid(s):
+    """Inputs the documented interface accepts (the shrinker must not leave this set)."""
+    if s['filter'] == 'ff' and s.get('models') == 2 and not s.get('increments'):
+        return False          # ValueError by contract: scale/misalignment states need `increments`
+    if s.get('inc_epochs') is not None and (len(s['inc_epochs']) < 2 or not set(s['inc_epochs']) <= set(s['epochs'])):
+        return False
+    return len(s['epochs']) >= 2
+
+
 def shrink(s, pred=None, budget=160):
-    """Greedy shrink of a failing schedule; `pred(s)` = still failing."""
-    pred = pred or (lambda x: bool(fails_on_impl(x)))
+    """Greedy shrink of a failing schedule; `pred(s)` = still failing (default: the property fails on
+    the implementation with the same class of failure)."""
+    if pred is None:
+        cls0 = failure_class(fails_on_impl(s))
+        pred = (lambda x: failure_class(fails_on_impl(x)) == cls0) if cls0 else (lambda x: False)
     s = json.loads(json.dumps(s))
     runs = [0]
 
     def still(c):
-        if runs[0] >= budget:
+        if runs[0] >= budget or not valid(c):
             return False
         runs[0] += 1
         try:
@@ -681,8 +740,21 @@ def shrink(s, pred=None, budget=160):
         if len(s['epochs']) > 2:
             for j in list(range(len(s['epochs']) - 1, -1, -1)):
                 c = json.loads(json.dumps(s))
-                del c['epochs'][j]
+                gone = c['epochs'].pop(j)
+                if c.get('inc_epochs'):
+                    c['inc_epochs'] = [t_ for t_ in c['inc_epochs'] if t_ != gone]
+                    if len(c['inc_epochs']) < 2:
+                        continue
                 cands.append(c)
+        if s.get('inc_epochs'):
+            c = json.loads(json.dumps(s))
+            del c['inc_epochs']
+            cands.append(c)
+            for j in range(len(s['inc_epochs'])):
+                if len(s['inc_epochs']) > 2:
+                    c = json.loads(json.dumps(s))
+                    del c['inc_epochs'][j]
+                    cands.append(c)
         for fld, val in (('models', 0), ('alt', True), ('increments', False), ('lever', False)):
             if s.get(fld) not in (None, val):
                 c = json.loads(json.dumps(s))
@@ -772,6 +844,19 @@ def corpus(kind):
         s['cats'] = ['corpus']
         if kind == 'ff':
             s['increments'] = bool(s['models'] == 2 or i == 1)
+    if kind == 'ff':
+        # trajectory rows denser than the increments, scale/misalignment states modelled, steps of one row
+        # that contain no increment sample (the gyro/accel averages are sums over an EMPTY batch)
+        out += [
+            dict(filter=kind, epochs=ep, inc_epochs=ep[::2], sensors=[], meas_mode='empty', step=4, alt=True,
+                 models=2, lever=False, increments=True, cats=['corpus', 'increments:sparse(every 2th row)']),
+            dict(filter=kind, epochs=ep, inc_epochs=[ep[0], ep[3], ep[6]], meas_mode='list', step=200, alt=False,
+                 models=2, lever=True, increments=True, cats=['corpus', 'increments:sparse(every 3th row)'],
+                 sensors=[['Position', [515, 517, 530, 547]], ['NedVelocity', [517, 562, 563, 600]]]),
+            dict(filter=kind, epochs=ep, inc_epochs=[ep[1], ep[2]], meas_mode='list', step=16, alt=True,
+                 models=2, lever=False, increments=True, cats=['corpus', 'increments:sparse(every 3th row)'],
+                 sensors=[['BodyVelocity', [529, 580]]]),
+        ]
     return out
 
 
@@ -830,11 +915,16 @@ def correspondence(r, kind, schedules, label, max_report=3):
             continue
         if fails:
             nviol += 1
-            if nviol <= max_report:
+            if nviol <= max_report and len(r.violations) < 4:
                 small = shrink(s)
                 sf = fails_on_impl(small) or fails
                 r.log(f"PROPERTY FAILS on the implementation: {sf[0]}")
                 r.violation(sf[0], dict(filter=kind, schedule=small, failures=sf, original=s))
+        if obs.get('internal') and not fails:
+            dist['internal-not-finite'] += 1
+            if dist['internal-not-finite'] <= 2:
+                r.broken('support', f'{label}: ' + obs['internal'][0] + ' handed to the covariance propagation',
+                         json.dumps(dict(schedule={k: v for k, v in s.items() if k != 'cats'})))
         if obs['status'] == 'ok':
             ok_pairs.append((s, obs))
         else:
@@ -917,7 +1007,7 @@ def run_falsify(r, kind):
     """Independent search on the implementation only (property statements, no model)."""
     warm_up(kind)
     rng = random.Random(r.seed * 7919 + 31)
-    schedules = [gen_schedule(rng, kind, 12) for _ in range(500)]
+    schedules = corpus(kind) + [gen_schedule(rng, kind, 12) for _ in range(500)]
     small = list(exhaustive_small(kind, r.seed + 1))
     schedules += random.Random(r.seed + 5).sample(small, 500)
     results = run_many(schedules)
